@@ -17,7 +17,7 @@ contract("tokens:TokenStream.next_token", trusted=True, mutates=TS, requires=["t
 contract("tokens:TokenStream.peek", trusted=True, mutates=TS, requires=["ts_inv(self)"],
     ensures=["ts_inv(self)", "is_tok(result)", "self.current == self0.current", "result == ts_next(self0)", "ts_next(self) == ts_next(self0)"],
     raises=[], props=["C05"], note="the token after the current one; the stream is left as it was")
-contract("tokens:TokenStream.push", trusted=True, mutates=TS, requires=["ts_inv(self)", "is_tok(tok)"],
+contract("tokens:TokenStream.push", mutates=TS, requires=["ts_inv(self)", "is_tok(tok)"],
     ensures=["ts_inv(self)", "self.current == tok"], raises=[], props=["C05"])
 contract("tokens:TokenStream.expect", mutates=TS, requires=["ts_inv(self)", "all(isinstance(t, TokenType) for t in typ)"],
     ensures=["ts_inv(self)", "self.current == self0.current"],
